@@ -636,6 +636,11 @@ def oracle(case, obs):
                 return Failure(case, f"{rk}: token {i}: {what} on side {s} after its connectionLost",
                                "connectionLost-twice" if x[0] == "L" else
                                "data-after-connectionLost" if x[0] == "d" else "callback-after-connectionLost")
+            if x == "R" and head not in ("r0", "H"):
+                return Failure(case, f"{rk}: token {i}: readConnectionLost on side {s} although no EOF was read "
+                               f"(event {head}): a {'read error' if head == 'r!' else 'write-side close'} was reported "
+                               "as a half-close, connectionLost not called",
+                               "halfclose-reported-for-" + ("read-error" if head == "r!" else "other-event"))
             if x[0] == "d":
                 got[s] += int(x[1:].split(".")[0])
             elif x in ("h", "W"):
@@ -776,7 +781,8 @@ def _one(rng, kind, big):
             X["rules"].append([["at", rng.choice([0, 1, 3, 8])], [["abort"]] + ([["lose"]] if rng.random() < 0.3 else [])])
         else:               # loseConnection, then abort
             X["rules"].append(["conn", a + [["lose"], ["abort"]]])
-        if hy:
+        Y["half"] = hy = rng.random() < 0.6        # a reset must reach a half-closeable receiver as connectionLost
+        if hy and rng.random() < 0.5:
             Y["rules"].append(["rlost", [["lose"]]])
         ex = {"X": ["A"], "Y": ["L"], "XY": "prefix", "YX": "exact", "unmade": "Y"}
     elif kind == "peer-abort":
@@ -821,6 +827,22 @@ def _one(rng, kind, big):
             X["rules"].append(["rlost", [["lose"]]])
         if hy:
             Y["rules"].append(["rlost", [["lose"]]])
+    elif kind == "reply-on-input":
+        # X is not reading; a request arrives; in ONE turn X queues a small reply and resumes reading, so one poll
+        # event carries IN and OUT; the request handler (dataReceived) calls loseConnection and the doWrite of the
+        # same event flushes the reply and finishes the close
+        X["half"] = hx = rng.random() < 0.75
+        nreq = rng.choice([1, 10, 100, 1000])
+        nrep = rng.choice([1, 50, 500, min(esl, 2000)])
+        X["rules"] += [["conn", [["pause"]]],
+                       [["at", rng.choice([15, 30])], W(nrep) + [["resume"]]],
+                       [["recv", nreq], [["lose"]]]]           # everything read: the close sends FIN, not RST
+        Y["rules"].append(["conn", W(nreq)])
+        if hx:
+            X["rules"].append(["rlost", [["lose"]]])
+        if hy:
+            Y["rules"].append(["rlost", [["lose"]]])
+        ex = {"X": ["D"], "Y": ["D"], "XY": "exact", "YX": "exact"}
     elif kind == "dead-peer":
         # the peer goes away early while X is not reading; later X acts on the dead connection
         t0 = rng.choice([0, 5, 10])
@@ -850,7 +872,7 @@ def _one(rng, kind, big):
 
 
 KINDS = ["simple", "simple", "reply", "reply", "echo", "pause", "both", "write-after-lose", "abort", "abort",
-         "peer-abort", "early-close", "late-abort", "dead-peer", "halfclose-then-close", "halfclose-then-close"]
+         "peer-abort", "early-close", "late-abort", "dead-peer", "halfclose-then-close", "halfclose-then-close", "reply-on-input"]
 
 
 def _gen_cases(rng, per_reactor, nbig):
@@ -946,6 +968,22 @@ def corpus():
          "A": {"half": False, "rules": []},
          "B": {"half": True, "rules": [["conn", [["losew"], ["w", 300000], ["later", 1, [["lose"]]]]],
                                        ["rlost", [["lose"]]]]}, "expect": E},
+    ]
+    base += [
+        # reply queued + input arrives + dataReceived calls loseConnection: on poll / epoll one event carries IN and
+        # OUT, doRead returns nothing and doWrite returns CONNECTION_DONE -- a write-side result, so connectionLost
+        # (not readConnectionLost) must follow although the protocol is half-closeable
+        {"kind": "corpus-reply-on-input", "sndbuf": 0, "rcvbuf": 0, "sl": 0, "bs": 0,
+         "A": {"half": True, "rules": [["conn", [["w", 10]]], ["rlost", [["lose"]]]]},
+         "B": {"half": True, "rules": [["conn", [["pause"]]], [["at", 25], [["w", 50], ["resume"]]],
+                                       [["recv", 1], [["lose"]]], ["rlost", [["lose"]]]]},
+         "expect": {"A": ["D"], "B": ["D"], "AB": "prefix", "BA": "exact"}},
+        # the peer aborts while a half-closeable protocol is reading: a reset is connectionLost(ConnectionLost),
+        # never readConnectionLost
+        {"kind": "corpus-abort-halfcloseable-reader", "sndbuf": 0, "rcvbuf": 0, "sl": 0, "bs": 0,
+         "A": {"half": False, "rules": [["conn", [["w", 3000]]], [["at", 20], [["abort"]]]]},
+         "B": {"half": True, "rules": []},
+         "expect": {"A": ["A"], "B": ["L"], "AB": "prefix", "BA": "exact"}},
     ]
     out = []
     for rk in REACTORS:
